@@ -288,6 +288,12 @@ def r_p2_step(ctx, db, est, roles, only=None, rule="R-P2", label="", max_paths=6
                        "final markers equal the specified step (%d non-identical height leaves compared as rational functions) [path: %s]" % (len(fl_pairs), pcs),
                        sample={"path_condition": pcs})
                 if sorted_rule:
+                    shape_bad = linear_shape_problem(m, init, got)
+                    if shape_bad:
+                        ctx.ob("R-SORTED", "linear-step-shape" + label, addp, fsite, False,
+                               "marker %d is moved to %s, which is neither a prediction tested to lie strictly between its neighbours nor of the form "
+                               "height ± (non-negative term towards the neighbour): its rounding can place the marker beyond a tied neighbour, "
+                               "so heights need not stay non-decreasing / within [min, max] [path: %s]" % (shape_bad[0], show_val(shape_bad[1])[:140], pcs))
                     sp_ = want.get("sorted", [])
                     oks = all(sp_) and len(sp_) == 4
                     ctx.ob("R-SORTED", "heights-non-decreasing" + label, addp, fsite, oks,
@@ -305,6 +311,33 @@ def r_p2_step(ctx, db, est, roles, only=None, rule="R-P2", label="", max_paths=6
             ctx.ob(rule, "step" + label, addp, fsite, False, str(p.info.get("why")), inc=True)
     ctx.extra["p2_paths"] = nret
     return nret
+
+
+def linear_shape_problem(m, init, got):
+    """float-level side condition of the sortedness argument: an interior marker height that
+    changed is either a value the implementation itself compared strictly between its live
+    neighbours, or `old_height + T` / `old_height - T` with T provably directed towards the
+    neighbour (so that monotone rounding keeps it between them)"""
+    from sign import SignEnv
+    se = SignEnv(m, {})
+    for i in (1, 2, 3):
+        g, old = got["q"][i], init["q"][i]
+        if g == old:
+            continue
+        try:
+            between = (m.order.decide("Lt", got["q"][i - 1], g) is True and m.order.decide("Lt", g, init["q"][i + 1]) is True)
+        except Exception:
+            between = False
+        if between:
+            continue
+        ok = False
+        if g[0] == "add" and old in (g[1], g[2]):
+            ok = True
+        elif g[0] == "sub" and g[1] == old:
+            ok = True
+        if not ok:
+            return (i, g)
+    return None
 
 
 def what_changed(init, r, i, after):
